@@ -214,3 +214,60 @@ __CPROVER_ensures((transit_event->named_args->g_p >= g_names && transit_event->n
     dropped=['the try block (formatting of the values: units BW.split_args, BW.fmt_named)', 'key strings as (kind, id); the pair vector as {size, one tracked index}', 'a recycled vector keeps its old pairs up to the new size: the loop overwrites every key below the number of names'],
     trusted=['std::vector::resize default-constructs new elements; tracked-element abstraction'], min_obligations=20)
 UNITS.append(named_keys)
+
+# ------------------------------------------------------------------------------------------ the formatting arm of _populate_transit_event_from_frontend_queue: named-args template cache
+NC_PRELUDE = r'''
+typedef uint8_t Event;     enum { EV_Log, EV_InitBacktrace, EV_FlushBacktrace, EV_Flush, EV_LogWithRuntimeMetadata, EV_LoggerRemovalRequest };
+/* strings by CONTENT id: message_format() of the statement's metadata, the lookup key, a parsed template (id = the template it was parsed from) */
+typedef struct MM { size_t g_template; bool g_named; Event g_event; } MM;
+typedef struct TE { MM* macro_metadata; } TE;
+typedef struct BW { size_t _named_args_format_template; } BW;
+static inline size_t MM_message_format(MM* m) { return m->g_template; }
+static inline bool MM_has_named_args(MM* m) { return m->g_named; }
+static inline Event MM_event(MM* m) { return m->g_event; }
+/* the cache map.  Representation invariant (assumed on entry, re-established by every insertion - clause below): the entry stored under key k was parsed from k */
+bool g_cached; size_t g_clock, g_finds, g_looked_key, g_inserts, g_inserted_key, g_inserted_entry, g_parses;
+size_t g_fmt_msgs, g_fmt_named, g_fmt_msg_entry, g_fmt_named_entry, g_t_fmt_msg, g_t_fmt_named, g_plain, g_plain_template, g_t_plain, g_mds, g_t_md;
+bool CACHE_FIND(BW* self, size_t key) __CPROVER_assigns(g_finds, g_looked_key) __CPROVER_ensures(RET == g_cached && g_finds == OLD(g_finds) + 1 && g_looked_key == key);
+static inline size_t CACHE_ENTRY_FOUND(void) { __CPROVER_assert(g_finds > 0 && g_cached, "an entry is read only after a lookup that hit"); return g_looked_key; }
+size_t PROCESS_TEMPLATE(size_t template_id) __CPROVER_assigns(g_parses) __CPROVER_ensures(RET == template_id && g_parses == OLD(g_parses) + 1);
+size_t CACHE_EMPLACE(BW* self, size_t key, size_t parsed) __CPROVER_assigns(g_inserts, g_inserted_key, g_inserted_entry) __CPROVER_ensures(g_inserts == OLD(g_inserts) + 1 && g_inserted_key == key && g_inserted_entry == parsed && RET == parsed);
+void FMT_MSG(BW* self, TE* te, size_t entry) __CPROVER_assigns(g_clock, g_fmt_msgs, g_fmt_msg_entry, g_t_fmt_msg) __CPROVER_ensures(g_clock == OLD(g_clock) + 1 && g_fmt_msgs == OLD(g_fmt_msgs) + 1 && g_fmt_msg_entry == entry && g_t_fmt_msg == g_clock);
+void FMT_NAMED(BW* self, TE* te, size_t entry) __CPROVER_assigns(g_clock, g_fmt_named, g_fmt_named_entry, g_t_fmt_named) __CPROVER_ensures(g_clock == OLD(g_clock) + 1 && g_fmt_named == OLD(g_fmt_named) + 1 && g_fmt_named_entry == entry && g_t_fmt_named == g_clock);
+void FMT_PLAIN(BW* self, TE* te, size_t template_id) __CPROVER_assigns(g_clock, g_plain, g_plain_template, g_t_plain) __CPROVER_ensures(g_clock == OLD(g_clock) + 1 && g_plain == OLD(g_plain) + 1 && g_plain_template == template_id && g_t_plain == g_clock);
+void APPLY_MD(BW* self, TE* te) __CPROVER_assigns(g_clock, g_mds, g_t_md) __CPROVER_ensures(g_clock == OLD(g_clock) + 1 && g_mds == OLD(g_mds) + 1 && g_t_md == g_clock);
+#define T_(te) ((te)->macro_metadata->g_template)
+'''
+named_cache = dict(
+    name='BW.named_cache', primary='C19', props={'C19', 'C04', 'C12'}, kind='S',
+    desc='formatting arm of BackendWorker::_populate_transit_event_from_frontend_queue: a statement with named placeholders is formatted with the parsed form of ITS OWN template, whether that was found in the cache (keyed by the template text) or parsed now and stored under that text; a plain statement is formatted with its template and runtime metadata applied afterwards',
+    structs=[], prelude=NC_PRELUDE, enforce='BW_format_arm', replace=['CACHE_FIND', 'PROCESS_TEMPLATE', 'CACHE_EMPLACE', 'FMT_MSG', 'FMT_NAMED', 'FMT_PLAIN', 'APPLY_MD'],
+    funcs=[dict(src=dict(header='quill/backend/BackendWorker.h', cls='BackendWorker', name='_populate_transit_event_from_frontend_queue',
+                         stmt_re=r'if \(!transit_event->macro_metadata->has_named_args\(\)\).*?_populate_formatted_named_args\(transit_event, arg_names\);\s*\}\s*\}'),
+                cfun='BW_format_arm', sig='void BW_format_arm(BW* self, TE* transit_event)', cls_c='BW', member_fields=['_named_args_format_template'],
+                methods={'message_format': 'MM_message_format', 'has_named_args': 'MM_has_named_args', 'event': 'MM_event'},
+                pre_rules=[(r'MacroMetadata::Event::(\w+)', r'EV_\1'),
+                           (r'_populate_formatted_log_message\(transit_event,\s*transit_event->macro_metadata->message_format\(\)\)\s*;', 'FMT_PLAIN(self, transit_event, transit_event->macro_metadata->message_format());'),
+                           (r'_apply_runtime_metadata\(transit_event\)\s*;', 'APPLY_MD(self, transit_event);'),
+                           (r'_named_args_format_template\.assign\(([^;]*)\)\s*;', r'_named_args_format_template = \1;'),
+                           (r'if\s*\(auto\s+const\s+search\s*=\s*_named_args_templates\.find\(_named_args_format_template\);\s*search\s*!=\s*std::cend\(_named_args_templates\)\)', 'if (CACHE_FIND(self, _named_args_format_template))'),
+                           (r'auto\s+const&\s*\[message_format,\s*arg_names\]\s*=\s*search->second\s*;', 'size_t const entry = CACHE_ENTRY_FOUND();'),
+                           (r'auto\s+const\s+\[res_it,\s*inserted\]\s*=\s*_named_args_templates\.try_emplace\(\s*_named_args_format_template,\s*_process_named_args_format_message\(([^;]*?)\)\)\s*;', r'size_t const entry_new = CACHE_EMPLACE(self, _named_args_format_template, PROCESS_TEMPLATE(\1));'),
+                           (r'auto\s+const&\s*\[message_format,\s*arg_names\]\s*=\s*res_it->second\s*;', 'size_t const entry = entry_new;'),
+                           (r'\(void\)inserted\s*;', ''),
+                           (r'_populate_formatted_log_message\(transit_event,\s*message_format\.data\(\)\)\s*;', 'FMT_MSG(self, transit_event, entry);'),
+                           (r'_populate_formatted_named_args\(transit_event,\s*arg_names\)\s*;', 'FMT_NAMED(self, transit_event, entry);')],
+                contract=r'''
+__CPROVER_requires(__CPROVER_is_fresh(self, sizeof(*self)) && __CPROVER_is_fresh(transit_event, sizeof(TE)) && __CPROVER_is_fresh(transit_event->macro_metadata, sizeof(MM)) && transit_event->macro_metadata->g_event <= EV_LoggerRemovalRequest)
+__CPROVER_requires(g_clock == 0 && g_finds == 0 && g_inserts == 0 && g_parses == 0 && g_fmt_msgs == 0 && g_fmt_named == 0 && g_plain == 0 && g_mds == 0)
+__CPROVER_assigns(self->_named_args_format_template, g_clock, g_finds, g_looked_key, g_inserts, g_inserted_key, g_inserted_entry, g_parses, g_fmt_msgs, g_fmt_named, g_fmt_msg_entry, g_fmt_named_entry, g_t_fmt_msg, g_t_fmt_named, g_plain, g_plain_template, g_t_plain, g_mds, g_t_md)
+__CPROVER_ensures(transit_event->macro_metadata->g_named ==> (g_fmt_msgs == 1 && g_fmt_named == 1 && g_plain == 0 && g_t_fmt_msg < g_t_fmt_named)) /*@ C19 "a statement with named placeholders gets its text and then its key/value pairs, once each" */
+__CPROVER_ensures(transit_event->macro_metadata->g_named ==> (g_fmt_msg_entry == T_(transit_event) && g_fmt_named_entry == T_(transit_event))) /*@ C19 "text and pairs come from the parsed form of the statement's OWN template, whatever templates were seen before (cache hit or first use)" */
+__CPROVER_ensures(g_inserts <= 1 && (g_inserts == 1 ==> (g_inserted_key == T_(transit_event) && g_inserted_entry == T_(transit_event) && !g_cached))) /*@ C19 "the cache only ever maps a template text to the parse of that very text (the invariant every later hit relies on)" */
+__CPROVER_ensures(!transit_event->macro_metadata->g_named ==> (g_plain == 1 && g_plain_template == T_(transit_event) && g_fmt_msgs == 0 && g_fmt_named == 0 && g_inserts == 0)) /*@ C04,C12 "a statement without named placeholders is formatted once with its own template" */
+__CPROVER_ensures(g_mds == ((!transit_event->macro_metadata->g_named && transit_event->macro_metadata->g_event == EV_LogWithRuntimeMetadata) ? 1 : 0) && (g_mds == 1 ==> g_t_plain < g_t_md)) /*@ C12 "runtime-supplied metadata is applied to exactly the statements that carry it, after their text was formatted" */
+''')],
+    harness='  BW* s; TE* te; BW_format_arm(s, te);',
+    dropped=['strings as content ids (the key string, the template, the parsed template)', 'the unordered_map as {does it hold the key, what was looked up / inserted}: the representation invariant "entry under k was parsed from k" is assumed on entry and re-established by the insertion clause'],
+    trusted=['std::unordered_map<std::string, ...> compares keys by content', '_process_named_args_format_message is a function of the template text (bounded stand-in BW.named_template)'], min_obligations=15)
+UNITS.append(named_cache)
